@@ -231,6 +231,8 @@ def main(tier):
         chk.sample({"form": x[1], "main": x[3][:500], "files": {k: v[:200] for k, v in x[4].items()}})
     # include graphs enumerated by TLC (spec/JSightInclude.tla), replayed with the file-operation hook on
     incgraph.run(chk, tier, "C08")
+    import fixrel
+    fixrel.c08(chk, tier)
     chk.rule = ("pairs (flattened document, multi-file project) for forms one / nested_dirs / two_from_one_place / "
                 "with_empty_and_comment_files / url_children / same_file_twice; rejection cases: missing, directory, "
                 "unreadable, self/2/3-cycles, cycle back to the root, JSIGHT in included file, INCLUDE without name, 9 bad names; "
@@ -241,6 +243,9 @@ def main(tier):
 
 def replay(path):
     rp = json.load(open(path))["replay"]
+    if rp.get("kind") in ("fxpair", "fxban"):
+        import fixrel
+        return fixrel.replay("C08", rp)
     chk = Check("C08", "quick")
     chk.evaluations = 1
     if rp["kind"] == "include_graph":
